@@ -17,8 +17,13 @@ EXPL = (
     "the DD- and FD-prefixed forms have the same bus trace and final state as the unprefixed form started one byte "
     "later (only the prefix fetch and a second R increment differ).  ED-undefined opcodes change nothing but PC, R, Q.  "
     "D5 - MEMPTR after LD (BC|DE|nn),A and OUT (n),A has high byte = A and low byte = (address+1)&0xFF.  "
-    "D6 - see rules/c01_exact.py when armed.  NOT decided: the arithmetic results and affected-flag values of ALU/rotate/"
-    "block operations beyond the clauses above."
+    "D6 - exact semantics: for every non-prefix encoding and every path of emulate, the closed-form terms of all final "
+    "registers, F (8 bits), MEMPTR, Q, PC, SP, IFF1/2, IM, HALT/EI state and of every memory/port access (address, data, "
+    "order) are proved equal to the symbolic NMOS-Z80 reference (oracle/z80sem.py) for all operand values: exhaustive "
+    "tabulation over the input bits each result bit depends on, restricted by the path's branch facts; adders wider than "
+    "8 bits through ripple-carry normal form and cut points (zx/cec.py); an undecided equality is OPEN, a difference is "
+    "reported only with a concrete witness.  NOT decided: behaviour over instruction sequences beyond the carried "
+    "MEMPTR/Q state; the reference model itself is trusted."
 )
 
 
